@@ -75,6 +75,8 @@ class Opts(dict):
     def format(self):
 
         def fmt(key, val):
+            if isinstance(val, list):
+                return ', '.join([fmt(key, v) for v in val])
             if val == '':
                 return key
             return '%s=%s' % (key, val)
